@@ -214,7 +214,18 @@ func c01r1(r *R) {
 	sh := r.method(mpkg, "proxyHandler", "ServeHTTP")
 	for _, w := range messageWrites(sh) {
 		if w.what == "field:Body" {
-			r.check(w.val == "net/http.NoBody" && guardedBy(w.at.Block(), eq("($2.ContentLength == 0)")), "proxyHandler.ServeHTTP#NoBody-guard", w.at.Pos(), "body dropped only when ContentLength is 0", "request body replaced by "+w.val+" under "+strings.Join(guardStrings(w.at.Block()), ","))
+			okGuard := guardedBy(w.at.Block(), eq("($2.ContentLength == 0)"))
+			if h := w.at.Parent(); !okGuard && h != sh && isNewHelper(h) {
+				// the clone is prepared in an extracted helper: the guard is on the helper's parameter that stands for the server request
+				for _, c := range calls(sh, func(n string) bool { return n == fname(h) }) {
+					for i, a := range c.Common().Args {
+						if describe(a) == "$2" && i < len(h.Params) && guardedBy(w.at.Block(), eq("("+describe(h.Params[i])+".ContentLength == 0)")) {
+							okGuard = true
+						}
+					}
+				}
+			}
+			r.check(w.val == "net/http.NoBody" && okGuard, "proxyHandler.ServeHTTP#NoBody-guard", w.at.Pos(), "body dropped only when ContentLength is 0", "request body replaced by "+w.val+" under "+strings.Join(guardStrings(w.at.Block()), ","))
 		}
 	}
 	fc := r.fn(mpkg, "fixConnectReqContentLength")
